@@ -172,6 +172,9 @@ def _conv(r, vec):
     k = r.random()
     if k < 0.2:
         return [np.float64(v) if not isinstance(v, bool) else v for v in vec]
+    if k < 0.3 and not isinstance(vec[-1], bool) and vec[-1] == int(vec[-1]) and 0 <= vec[-1] < 200:
+        # violation counts kept in unsigned numpy integers (a marker column of dtype uint8): differences wrap around
+        return list(vec[:-1]) + [r.choice([np.uint8, np.uint16, np.uint64])(int(vec[-1]))]
     return vec
 
 
